@@ -26,6 +26,7 @@ import (
 	"github.com/sourcenetwork/defradb/internal/core"
 	"github.com/sourcenetwork/defradb/internal/datastore"
 	"github.com/sourcenetwork/defradb/internal/encryption"
+	"github.com/sourcenetwork/defradb/internal/keys"
 )
 
 func putBlock(
@@ -143,6 +144,37 @@ func determineBlockEncryption(
 	}
 
 	// otherwise we use the same encryption as the previous block
+	encBlock, encLink, err := inheritBlockEncryption(ctx, heads, false)
+	if err != nil || encBlock != nil {
+		return encBlock, encLink, err
+	}
+
+	if fieldName.HasValue() {
+		// A field that has no previous block (it is set for the first time by an update)
+		// must still be encrypted if the document as a whole is.
+		compositeHeads, _, err := NewHeadSet(
+			txn.Headstore(),
+			keys.HeadstoreDocKey{DocID: docID, FieldID: core.COMPOSITE_NAMESPACE},
+		).List(ctx)
+		if err != nil {
+			return nil, cidlink.Link{}, NewErrGettingHeads(err)
+		}
+		return inheritBlockEncryption(ctx, compositeHeads, true)
+	}
+
+	return nil, cidlink.Link{}, nil
+}
+
+// inheritBlockEncryption returns the encryption of the first of the given heads that is encrypted.
+//
+// If docLevelOnly is true, only encryption that applies to the whole document is considered.
+func inheritBlockEncryption(
+	ctx context.Context,
+	heads []cid.Cid,
+	docLevelOnly bool,
+) (*Encryption, cidlink.Link, error) {
+	txn := datastore.CtxMustGetTxn(ctx)
+
 	for _, headCid := range heads {
 		prevBlockBytes, err := txn.Blockstore().AsIPLDStorage().Get(ctx, headCid.KeyString())
 		if err != nil {
@@ -160,6 +192,9 @@ func determineBlockEncryption(
 			prevEncBlock, err := GetEncryptionBlockFromBytes(prevBlockEncBytes)
 			if err != nil {
 				return nil, cidlink.Link{}, err
+			}
+			if docLevelOnly && prevEncBlock.FieldName != nil {
+				continue
 			}
 			return &Encryption{
 				DocID:     prevEncBlock.DocID,
